@@ -1,5 +1,5 @@
 #!/usr/bin/env python3
-"""seedtable.py: writes seeded/TABLE.md (rounds 2 to 4 of the independent seeded changes) from the
+"""seedtable.py: writes seeded/TABLE.md (rounds 2 to 5 of the independent seeded changes) from the
 seeds' notes, the regression matrix seeded/RESULTS.txt and the history notes below, and copies the
 history into each seed's meta.json."""
 import json, os, re
@@ -53,13 +53,29 @@ H = {
  'r4-C19-2': "initially missed: no program whose expansion changes between two evaluations of one call site; added 4",
  'r4-C20-1': "initially missed: no two closures of one function literal; added the closures-of-one-literal family",
  'r4-C20-2': "initially missed: the wrapped lisp error had no position; it has one now",
+ # round 5
+ 'r5-C01-2': "initially missed: no = in the core grammar (programs are read from text, so two occurrences of a symbol carry different positions); added",
+ 'r5-C02-1': "initially missed: no vector longer than 16 elements that came out of a copying builtin; added seeds of 17 and 33 elements",
+ 'r5-C02-2': "initially missed and out of reach of enumeration (two futures extending one vector at the same instant, an atomic load followed by a store: no data race, no sequential symptom); C02 got a sampled race pass with a functional cross-check (8 evaluations extending the same 4500 values), which reports it",
+ 'r5-C03-1': "initially missed: every panicking Go function went through the binder, which recovers; added bare types.Func panics in bodies and handlers under an outer try",
+ 'r5-C03-2': "initially missed: no panic below a callback; added (apply rawpan! (list))",
+ 'r5-C04-2': "initially missed: every function value had a source position; added functions made by eval of a constructed form, and calls with wrong argument counts through defmacro / apply / map",
+ 'r5-C05-1': "initially missed: preambles had at most 3 lines; added chained preambles of up to 96 lines",
+ 'r5-C07-2': "initially missed by design (work after the instant that needs no poll); added the deep-recursion family with a bound on heap bytes allocated between the instant and EVAL's return (HEAD: <=128 KiB, bound 16 MiB, this change: 180 MB)",
+ 'r5-C09-2': "initially missed: every operation ran under a context that never ends; added a swap! under a caller context that another thread ends, followed by further use of the atom",
+ 'r5-C12-2': "initially missed: macro values were never re-bound; added macros re-bound with def / with-meta / ^ and called through the new name",
+ 'r5-C15-1': "initially missed: no placeholder named MODULE; added",
+ 'r5-C17-1': "initially missed: the module was always named by the cursor (or by load-file); added a text whose ';; $MODULE' header line is followed by blank lines, read without a cursor",
+ 'r5-C18-1': "initially missed: programs were tiny; added tail-recursive loops of 3000-4000 iterations under the stepper",
+ 'r5-C19-2': "initially missed: strings never spanned lines in the text; added the raw-strings-across-line-ends family (LF, CRLF, CRLF inside the string only)",
+ 'r5-C20-1': "initially missed: no panic with a lisp error; added",
 }
 res = {}
 for l in open('/verif/seeded/RESULTS.txt'):
     n = l.split(' | ')[0].strip()
     res[n] = [m.group(1) for m in re.finditer(r'\| (C\d\d) rc=1', l)]
 out = []
-for rnd in ('r2', 'r3', 'r4'):
+for rnd in ('r2', 'r3', 'r4', 'r5'):
     out.append(f"\n**Round {rnd[1]}**\n\n| seed | what it does (first line of the author's notes) | reported by (own-property quick check, regression matrix) | history |\n|---|---|---|---|")
     for d in sorted(os.listdir('/verif/seeded')):
         if not d.startswith(rnd + '-'): continue
